@@ -23,7 +23,9 @@ import (
 	"verifharness/hx"
 )
 
-// c05.retry  kind robin keyhex hosts maxConns maxFails tryDuration interval failTimeout bodyLen framing events
+// c05.retry  kind robin keyhex hosts maxConns maxFails tryDuration interval failTimeout bodyLen framing events [layout]
+//   layout (optional 13th field, see c04_layout.go): backends on the directive line / on `upstream` lines / mixed, the
+//          six settings lines of the block in the given order
 //   framing  cl: Content-Length = bodyLen (0 = http.NoBody) | chunked: ContentLength -1, TransferEncoding chunked, non-nil Body
 //            (what net/http hands a handler for a chunked upload, also when the body turns out empty) | nil: Body nil
 //   hosts  comma list of u/c/script[/f] : the state of the backend WHEN THE REQUEST ARRIVES: u 1 = marked unhealthy;
@@ -168,7 +170,7 @@ func c05RetryEval(f []string) (string, []string) {
 		f = append(append([]string{}, f...), "-")
 	}
 	out, tags, stamps := c05RetryOnce(f)
-	if len(f) != 12 {
+	if len(f) != 12 && len(f) != 13 {
 		return out, tags
 	}
 	interval, _ := strconv.Atoi(f[7])
@@ -217,9 +219,23 @@ func c05RetryRun(f []string) (string, []string, []time.Duration) {
 	return out, tags, stamps
 }
 
+func c05RetryBlock(n int, policy, mc, mf, d, i, f string) ([]string, []blkLine) {
+	backends := make([]string, n)
+	for j := range backends {
+		backends[j] = fmt.Sprintf("h%d.test:80", j)
+	}
+	return backends, []blkLine{{"", " policy " + policy + "\n"}, {"", " max_conns " + mc + "\n"}, {"", " max_fails " + mf + "\n"},
+		{"", " try_duration " + d + "ms\n"}, {"", " try_interval " + i + "ms\n"}, {"", " fail_timeout " + f + "ms\n"}}
+}
+
 func c05RetryEvalAt(f []string, start *time.Time, stamps *[]time.Duration) (string, []string) {
 	if len(f) == 11 {
 		f = append(append([]string{}, f...), "-")
+	}
+	lay := ""
+	if len(f) == 13 {
+		lay = f[12]
+		f = f[:12]
 	}
 	if len(f) != 12 {
 		return "bad-case", nil
@@ -232,13 +248,12 @@ func c05RetryEvalAt(f []string, start *time.Time, stamps *[]time.Duration) (stri
 	hosts := strings.Split(hostsS, ",")
 	policy := kind
 	bodyLen, _ := strconv.Atoi(f[9])
-	var cfg strings.Builder
-	cfg.WriteString("proxy /")
-	for i := range hosts {
-		fmt.Fprintf(&cfg, " h%d.test:80", i)
+	backends, lines := c05RetryBlock(len(hosts), policy, f[4], f[5], f[6], f[7], f[8])
+	cfg, ok := blkWrite("proxy /", backends, lines, lay)
+	if !ok {
+		return "bad-case:layout", nil
 	}
-	fmt.Fprintf(&cfg, " {\n policy %s\n max_conns %s\n max_fails %s\n try_duration %sms\n try_interval %sms\n fail_timeout %sms\n}\n", policy, f[4], f[5], f[6], f[7], f[8])
-	ups, err := proxy.NewStaticUpstreams(casketfile.NewDispenser("Testfile", strings.NewReader(cfg.String())), "")
+	ups, err := proxy.NewStaticUpstreams(casketfile.NewDispenser("Testfile", strings.NewReader(cfg)), "")
 	if err != nil || len(ups) != 1 {
 		return fmt.Sprintf("setup-error:%v", err), nil
 	}
@@ -368,7 +383,7 @@ func c05RetryEvalAt(f []string, start *time.Time, stamps *[]time.Duration) (stri
 		lastHost, _ = strconv.Atoi(strings.SplitN(log[nAttempts-1], ":", 2)[0])
 	}
 	mu.Unlock()
-	tags := []string{kind, fmt.Sprintf("n=%d", len(hosts)), "result=" + res}
+	tags := append([]string{kind, fmt.Sprintf("n=%d", len(hosts)), "result=" + res}, blkLayoutTags(lay)...)
 	if nAttempts > 1 {
 		tags = append(tags, "retried")
 	}
@@ -419,6 +434,9 @@ func c05RetryGen(g *hx.Gen) {
 	r := g.Rng
 	kinds := []string{"first", "round_robin", "ip_hash", "uri_hash"}
 	keys := map[string][]string{"first": {""}, "round_robin": {""}, "ip_hash": {"10.0.0.1", "10.0.0.2", "192.168.7.33"}, "uri_hash": {"/", "/a/b?c=d", "/k"}}
+	// also: true = every case emitted next is emitted a second time with its upstream block written another way
+	// (backends on `upstream` lines or mixed, the settings lines in a seeded order — more than four lines: sampled)
+	also := false
 	emitE := func(framing, kind string, robin int, key string, hosts []string, mc, mf, d, i, f, blen int, events []string) {
 		ev := "-"
 		if len(events) > 0 {
@@ -426,6 +444,10 @@ func c05RetryGen(g *hx.Gen) {
 		}
 		g.Case(kind, strconv.Itoa(robin), hx.HS(key), strings.Join(hosts, ","), strconv.Itoa(mc), strconv.Itoa(mf),
 			strconv.Itoa(d), strconv.Itoa(i), strconv.Itoa(f), strconv.Itoa(blen), framing, ev)
+		if also {
+			g.Case(kind, strconv.Itoa(robin), hx.HS(key), strings.Join(hosts, ","), strconv.Itoa(mc), strconv.Itoa(mf),
+				strconv.Itoa(d), strconv.Itoa(i), strconv.Itoa(f), strconv.Itoa(blen), framing, ev, blkRandLayout(r, len(hosts)))
+		}
 	}
 	emitF := func(framing, kind string, robin int, key string, hosts []string, mc, mf, d, i, f, blen int) {
 		emitE(framing, kind, robin, key, hosts, mc, mf, d, i, f, blen, nil)
@@ -470,6 +492,7 @@ func c05RetryGen(g *hx.Gen) {
 				}
 				key := keys[kind][code%len(keys[kind])]
 				robin := code % (n + 1)
+				also = true
 				if healthy {
 					emit(kind, robin, key, hosts, 2, 1, D, I, F, 1000)
 				} else if (code+ki)%3 == 0 || g.Thorough() {
@@ -478,6 +501,7 @@ func c05RetryGen(g *hx.Gen) {
 			}
 		}
 	}
+	also = false
 	// 2. max_fails > 1, flaky hosts (fail then answer), no retries (try_duration 0), body sizes, no body
 	N := 400
 	if g.Thorough() {
@@ -514,8 +538,10 @@ func c05RetryGen(g *hx.Gen) {
 			d = 0
 		}
 		blen := hx.Pick(r, []int{0, 1, 1000, 32 * 1024, 70000})
+		also = it%3 == 0
 		emit(kind, r.Intn(6), hx.Pick(r, keys[kind]), hosts, 2, 1+r.Intn(3), d, I, F, blen)
 	}
+	also = false
 	// 2b. body framing x failure scripts, two and three backends: known Content-Length, unknown length (chunked upload,
 	//     also with an empty body), Content-Length 0 with http.NoBody, nil Body; the failing backends fail before
 	//     reading the body (F) or after reading it (R); with and without retries
@@ -666,6 +692,7 @@ func c05RetryGen(g *hx.Gen) {
 										framing = "chunked"
 									}
 									blen := []int{1000, 1, 70000}[n5%3]
+									also = n5%4 == 0
 									emitE(framing, kind, n5%(n+1), keys[kind][n5%len(keys[kind])], hosts, MC, mf, D, I, F, blen, events)
 								}
 							}
@@ -710,6 +737,7 @@ func c05RetryGen(g *hx.Gen) {
 									if n5%2 == 0 {
 										framing = "chunked"
 									}
+									also = n5%4 == 0
 									emitE(framing, kind, n5%3, "", hosts, MC, mf, window(hosts, events), I, F, 1000, events)
 								}
 							}
@@ -757,6 +785,7 @@ func c05RetryGen(g *hx.Gen) {
 		kind := hx.Pick(r, kinds)
 		framing := hx.Pick(r, []string{"cl", "chunked"})
 		blen := hx.Pick(r, []int{0, 1, 1000, 32 * 1024, 70000})
+		also = it%3 == 0
 		emitE(framing, kind, r.Intn(6), hx.Pick(r, keys[kind]), hosts, MC, mf, window(hosts, events), I, F, blen, events)
 	}
 }
